@@ -298,12 +298,16 @@ Definition main_step (g:cfg) (s:state) (evs:list ev) (inl_:bool) : option state 
   | MStopped | MCrashed => None
   end.
 
+(* pool threads in use: a job that completed inside submit() has given its thread back although its
+   finish_request (run by the main thread, pc MFin) is not through yet *)
+Definition pool_busy (s:state) : Z := n_running s - match mpc s with MFin _ _ => 1 | _ => 0 end.
+
 Definition new_conn : conn := mkConn CPending [] [] false false 0 0 0 0.
 
 Definition step (g:cfg) (s:state) (l:label) : option state :=
   match l with
   | LMain evs inl_ => main_step g s evs inl_
-  | LStart c => if n_running s <? threads g then p_start s c else None
+  | LStart c => if pool_busy s <? threads g then p_start s c else None
   | LHandle c => p_handle g s c
   | LFinish c => p_finish g s c
   | LFinLock c => p_finlock s c
